@@ -16,13 +16,17 @@ MANIFEST = dict(
          "C20_permute_is_permutation / C20_permute_complete (pi ranges over exactly the orders a HashMap can produce), C20_deterministic_modulo_ties, "
          "C20_breakdown_deterministic and C20_registry_deterministic (unconditional for the repaired sort key / registration order), "
          "C20_html_escape_charwise, C20_html_escape_safe, C20_html_escape_injective, C20_uri_roundtrip / C20_uri_wellformed (SARIF uri encoder), "
+         "C20_html_totals_are_sums / C20_html_totals_agree_with_project_totals / C20_html_totals_ignore_structure_results (html cards = sums over the "
+         "file results, D75), C20_roots_each_file_once / C20_roots_same_files (overlapping scan roots, D50), "
          "C20_presentation_flags_inert and the listing theorems hold for "
          "all result lists, file lists, permutations and strings (unbounded). Cross-format agreement, JSON/SARIF well-formedness and run-to-run "
          "byte identity are established by the correspondence run only.",
     note="Trusted: Coq kernel, extraction (ExtrOcamlBasic), harness sgv-report, the python extractors for text/Markdown/HTML, a hand-transcribed "
          "subset of the SARIF 2.1.0 schema (the official schema file is not in the sandbox), serde_json, std HashMap (any iteration order is a "
          "permutation), rayon's order-preserving collect. D23 (tie order, shared extension, config hash), D31 (--suggest with a non-UTF-8 name) and "
-         "D37 (SARIF uri not percent-encoded) are repaired by fixes/D23-*, D31-*, D37-*.patch.",
+         "D37 (SARIF uri not percent-encoded) are repaired by fixes/D23-*, D31-*, D37-*.patch; D75 (html line-total cards counted structure results) "
+         "by fixes/D75-*.patch; D50 (overlapping scan roots counted twice) by fixes/D50-*.patch of the structure subsystem. Roots model: relative roots "
+         "without parent-dir components, keys computed by the python side (split on the slash, dot and empty components dropped).",
     ref="5 (C20)")
 
 FORMATS = ["text", "json", "sarif", "markdown", "html"]
@@ -37,7 +41,7 @@ def model_generation(ctx):
 
 def prepare(ctx):
     bins = cargo_build(["sgcli", "sgv-report"])
-    ok, log = coq_make(["Report/Summary.vo", "Report/Stats.vo", "Report/Escape.vo", "Report/Uri.vo", "Extract/ExtractReport.vo"])
+    ok, log = coq_make(["Report/Summary.vo", "Report/Stats.vo", "Report/Escape.vo", "Report/Uri.vo", "Report/Roots.vo", "Extract/ExtractReport.vo"])
     if not ok:
         raise CheckBroken("coq model build failed:\n" + log[-3000:])
     model = ModelProc(ocaml_build("report_drv", ["report_ex"]))
@@ -122,7 +126,43 @@ def counts_of(entries):
 
 
 def rows_for_model(rows):
-    return [(r["status"], r["path"], (r["stats"]["total"], r["stats"]["code"], r["stats"]["comment"], r["stats"]["blank"])) for r in rows]
+    return [(r["status"], r["path"], (r["stats"]["total"], r["stats"]["code"], r["stats"]["comment"], r["stats"]["blank"]), is_structure_row(r))
+            for r in rows]
+
+
+D75 = "D75-html-totals-count-structure-results"
+AGG_GEN = ["1"]      # generation of html_aggregate: "0" while D75 is listed as an open finding, "1" on the repaired tree
+
+
+def set_generations(ctx):
+    open_classes = {k["class"] for k in ctx.kf.get("findings", []) if k["property"] == "C20"}
+    AGG_GEN[0] = "0" if D75 in open_classes else "1"
+    ROOTS_STRICT[0] = ROOTS_CLASS not in open_classes
+
+
+def content_sums(rows):
+    """sums of the per-file counts of one check run: the rows that stand for a counted file"""
+    return [sum(r["stats"][k] for r in rows if not is_structure_row(r)) for k in ("total", "code", "comment", "blank")]
+
+
+def html_cards(H):
+    c = H["cards"]
+    try:
+        return [int(c["Total Lines"]), int(c["Code"]), int(c["Comments"]), int(c["Blanks"])]
+    except Exception:
+        return None
+
+
+def totals_verdict(acc, rows, tool_agg, what, case):
+    """oracle for the four line-total cards of an html check report against the per-file counts"""
+    exp = content_sums(rows)
+    if tool_agg == exp:
+        return
+    everything = [sum(r["stats"][k] for r in rows) for k in ("total", "code", "comment", "blank")]
+    if AGG_GEN[0] == "0" and tool_agg == everything and any(is_structure_row(r) for r in rows):
+        acc.known.append((D75, what % (tool_agg, exp), case))
+    else:
+        acc.fails.append((what % (tool_agg, exp), case))
 
 
 def cross_format(acc, model, outputs, case, where):
@@ -182,7 +222,7 @@ def cross_format(acc, model, outputs, case, where):
     # ---- model side
     rows = rows_for_model(J["rows"])
     wr = w_results(rows)
-    lines = ["summary\t" + wr, "agg\t" + wr, "listed\ttext\t0\t" + wr, "listed\ttext\t1\t" + wr, "listed\tsarif\t0\t" + wr,
+    lines = ["summary\t" + wr, "agg\t%s\t%s" % (AGG_GEN[0], wr), "listed\ttext\t0\t" + wr, "listed\ttext\t1\t" + wr, "listed\tsarif\t0\t" + wr,
              "listed\tmarkdown\t0\t" + wr, "listed\thtml\t0\t" + wr, "listed\tjson\t0\t" + wr]
     uri_from = len(lines)
     np_paths = [p for p, st in ref if st != "passed"]
@@ -216,16 +256,16 @@ def cross_format(acc, model, outputs, case, where):
     if "html" in parsed:
         H = parsed["html"]
         agg = [int(x) for x in mo[1].split()]
-        cards = H["cards"]
-        try:
-            tool_agg = [int(cards["Total Lines"]), int(cards["Code"]), int(cards["Comments"]), int(cards["Blanks"])]
-        except Exception:
-            tool_agg = None
+        tool_agg = html_cards(H)
         if tool_agg != agg:
             bad.append("html aggregate cards: model %s, tool %s" % (agg, tool_agg))
-        exp_sums = [sum(r["stats"][k] for r in J["rows"]) for k in ("total", "code", "comment", "blank")]
-        if tool_agg is not None and tool_agg != exp_sums:
-            acc.fails.append(("%s: html totals %s are not the sums of the per-file counts %s" % (where, tool_agg, exp_sums), case))
+        if tool_agg is not None:
+            # the results that stand for a file carry its counts; a structure result carries a count of files /
+            # directories / a depth in the same fields, which is not a per-file line count
+            totals_verdict(acc, J["rows"], tool_agg, where + ": html Total Lines/Code/Comments/Blanks cards %s are not the sums of the per-file counts %s "
+                           "(structure results carry a synthetic count, not line statistics)", case)
+            if any(is_structure_row(r) for r in J["rows"]):
+                acc.hist["%s:html-totals-with-structure-results" % where.split()[0]] += 1
         esc_out = mo[esc_from:]
         n = len(ref)
         m_paths = [dec(o.split("\t")[0]) for o in esc_out[:n]]
@@ -467,7 +507,7 @@ def strip1(s):
     return s[:-1] if s.endswith("\n") else s
 
 
-def run_project(sgcli, model, builtin, gen, P, det_full, verbose_log=None):
+def run_project(sgcli, model, builtin, gen, P, det_full, verbose_log=None, with_roots=False):
     acc = Acc()
     case = {"project": project_replay(P)}
     tag = "+".join(sorted(P.tags))
@@ -618,7 +658,7 @@ def run_project(sgcli, model, builtin, gen, P, det_full, verbose_log=None):
         for rel in list(P.files) + list(P.late):
             raw = "./" + lossy(rel)
             rawmap.setdefault(raw.replace("\\", "/"), set()).add(raw)
-        stats_phase(acc, sgcli, model, builtin, gen, P, J, rep_j, run, case, rawmap)
+        stats_phase(acc, sgcli, model, builtin, gen, P, J, rep_j, run, case, rawmap, check_html=outs["html"])
         # ---- D. determinism: repeated runs x thread counts
         cmds = [(["check"], ["--format", "json"] + tail), (["check"], ["--format", "html"] + tail),
                 (["stats", "breakdown"], ["--format", "json", "--no-sloc-cache"]),
@@ -660,6 +700,9 @@ def run_project(sgcli, model, builtin, gen, P, det_full, verbose_log=None):
                 msg = "cache config_hash differs between two runs of one configuration: %s" % hashes
                 (acc.known.append(("D23-hashmap-order", msg, case)) if gen == "0" else acc.fails.append((msg, case)))
             acc.hist["cli:cache-on-runs"] += 2
+        # ---- F. overlapping scan roots
+        if with_roots:
+            roots_phase(acc, model, P, J, run, case, tail)
     if gen == "0" and "shared-ext" in P.tags:
         # unrepaired tree: every command is a fresh process with its own registration order, so any
         # cross-command disagreement of this project is a consequence of D23
@@ -673,7 +716,7 @@ def has_tie(J, sub):
     return True   # v0 only: any repeated key may tie; the generation-0 classifier is deliberately coarse
 
 
-def stats_phase(acc, sgcli, model, builtin, gen, P, J, rep_j, run, case, rawmap):
+def stats_phase(acc, sgcli, model, builtin, gen, P, J, rep_j, run, case, rawmap, check_html=None):
     ns = ["--no-sloc-cache"]
     # files
     fouts = {}
@@ -716,6 +759,22 @@ def stats_phase(acc, sgcli, model, builtin, gen, P, J, rep_j, run, case, rawmap)
             acc.fails.append(("stats summary %s %s != sums of the per-file counts %s" % (fmt, got, sums), case))
         if got != mt:
             acc.mism.append(("project totals: model %s, tool %s (%s)" % (mt, got, fmt), case))
+    # the line-total cards of check --format html are project totals too: the same four numbers as stats summary,
+    # stats report and the --report-json side-car of the very same check run
+    if check_html is not None:
+        try:
+            got = html_cards(parse_html(check_html))
+        except Bad:
+            got = None
+        if got is not None and got != sums[1:]:
+            everything = [sum(r["stats"][k] for r in J["rows"]) for k in ("total", "code", "comment", "blank")]
+            msg = ("check --format html prints Total Lines/Code/Comments/Blanks %s, the per-file counts of stats files (and the stats summary / "
+                   "--report-json totals of the same project) add up to %s" % (got, sums[1:]))
+            if AGG_GEN[0] == "0" and got == everything and any(is_structure_row(r) for r in J["rows"]):
+                acc.known.append((D75, msg, case))
+            else:
+                acc.fails.append((msg, case))
+        acc.hist["cli:html-cards-vs-project-totals"] += 1
     # language per file vs registry model
     cust = ";".join("%s=%s" % (enc(n), "+".join(enc(e) for e in ce)) for n, ce, _ in P.customs) or "-"
     wb = ";".join("%s=%s" % (enc(e), enc(n)) for e, n in sorted(builtin.items()))
@@ -783,10 +842,155 @@ def stats_phase(acc, sgcli, model, builtin, gen, P, J, rep_j, run, case, rawmap)
             acc.fails.append(("--report-json not well-formed: %s" % e, case))
 
 
+# ---------------------------------------------------------------------------------------- overlapping scan roots
+
+ROOTS_CLASS = "D50-overlapping-roots-double-count"      # defect D50 (repaired by the structure subsystem, fixes/D50-overlapping-scan-roots.patch)
+ROOTS_STRICT = [True]     # False while ROOTS_CLASS is listed as an open finding: duplication that is exactly the concatenation of the
+#                           single-root outputs is then reported as that known class; anything else is still a violation
+
+
+def strip_dot(p):
+    """a display path modulo the spelling of the root it was reached through"""
+    while p.startswith("./"):
+        p = p[2:]
+    return p or "."
+
+
+def pick_overlap(P, J):
+    """(d, f): a top-level directory and a counted file below it, both plain enough to be passed as arguments and to be
+    recognised in the reports (valid UTF-8, no backslash / control character, no leading dash)"""
+    counted = {r["path"] for r in J["rows"] if not is_structure_row(r)}
+    for rel in sorted(list(P.files) + list(P.late)):
+        try:
+            t = rel.decode("utf-8")
+        except UnicodeDecodeError:
+            continue
+        if "/" not in t or "\\" in t or t.startswith("-") or any(ord(c) < 32 or ord(c) == 127 for c in t):
+            continue
+        if "./" + t in counted:
+            return t.split("/", 1)[0], t
+    return None
+
+
+def root_key(arg):
+    """normalize_for_matching of a relative root without parent-dir components, as the model's component list"""
+    comps = [c for c in arg.split("/") if c not in ("", ".")]
+    return "/".join(enc(c) for c in comps) if comps else "."
+
+
+def roots_phase(acc, model, P, J, run, case, tail):
+    """C20 over runs whose scan roots overlap: the files of the run are the DISTINCT files below the roots; totals are sums
+    over them, every breakdown puts each of them into exactly one group, check lists each of them once. Model side:
+    drop_covered (Report/Roots.v) says which roots are walked; the file results of the run must be, in order, those of the
+    walked roots."""
+    pick = pick_overlap(P, J)
+    if pick is None:
+        acc.hist["cli:roots-no-suitable-directory"] += 1
+        return
+    d, f = pick
+    ns = ["--no-sloc-cache"]
+
+    def observe(roots, groups=True):
+        o = {}
+        rc, out, err = run([], ["stats", "files"], ["--format", "json"] + ns + roots)
+        o["files"] = collections.Counter(parse_stats_files("json", out)) if rc == 0 else None
+        rc, out, err = run([], ["stats", "summary"], ["--format", "json"] + ns + roots)
+        o["totals"] = list(parse_stats_summary("json", out)) if rc == 0 else None
+        if groups:
+            rc, out, err = run([], ["stats", "breakdown"], ["--by", "dir", "--format", "json"] + ns + roots)
+            o["groups"] = parse_stats_groups("json", out, "dir") if rc == 0 else None
+        rc, out, err = run([], ["check"], ["--format", "json"] + tail + roots)
+        o["rc"] = rc
+        try:
+            Jr = parse_check_json(out)
+            o["content_list"] = [(r["path"], r["status"], r["stats"]["total"], r["stats"]["code"], r["stats"]["comment"], r["stats"]["blank"])
+                                 for r in Jr["rows"] if not is_structure_row(r)]
+            o["content"] = collections.Counter(o["content_list"])
+            if Jr["summary"] != counts_of(Jr["entries"]):
+                acc.fails.append(("roots %s: json summary %s != per-status counts of its results" % (roots, Jr["summary"]), dict(case, roots=roots)))
+        except Bad:
+            o["content_list"] = o["content"] = None
+        if any(v is None for v in o.values()):
+            return None
+        return o
+
+    def norm(counter):
+        c = collections.Counter()
+        for k, v in counter.items():
+            c[(strip_dot(k[0]),) + tuple(k[1:])] += v
+        return c
+
+    single = {}
+
+    def single_of(r):
+        if r not in single:
+            single[r] = observe([r], groups=False)
+        return single[r]
+
+    for r in (".", d, f):
+        if single_of(r) is None:
+            acc.fails.append(("a run over the single root %r failed" % r, dict(case, roots=[r])))
+            return
+    for roots, cover in (([".", d], "."), ([d, "."], "."), ([d, d], d), ([d, f], d), ([f, d], d), ([f, f], f), (["./" + d, d + "/"], d)):
+        acc.hist["cli:overlapping-root-runs"] += 1
+        acc.evals += 1
+        c2 = dict(case, roots=roots)
+        o = observe(roots)
+        if o is None:
+            acc.fails.append(("a run over the roots %s failed" % roots, c2))
+            continue
+        ref = single[cover]
+        bad = []
+        distinct = norm(ref["files"])
+        n = sum(distinct.values())
+        if any(v > 1 for v in norm(o["files"]).values()) or norm(o["files"]) != distinct:
+            dup = sorted(k[0] for k, v in norm(o["files"]).items() if v > 1)[:2]
+            bad.append("stats files lists %d entries for the %d distinct files under the roots (twice: %s)" % (sum(o["files"].values()), n, dup))
+        if o["totals"] != ref["totals"]:
+            bad.append("stats summary totals %s are not the sums over the distinct files %s (= the totals of the covering root %r)" % (o["totals"], ref["totals"], cover))
+        gfiles = sum(g[1] for g in o["groups"])
+        gkeys = [strip_dot(g[0]) for g in o["groups"]]
+        if gfiles != n or len(set(gkeys)) != len(gkeys):
+            bad.append("the by-directory breakdown does not partition the files: its groups hold %d files for %d distinct files, keys %s" % (gfiles, n, [g[0] for g in o["groups"]][:4]))
+        if any(v > 1 for v in norm(o["content"]).values()) or norm(o["content"]) != norm(ref["content"]):
+            bad.append("check lists %d file results for the %d distinct files it checked" % (sum(o["content"].values()), sum(norm(ref["content"]).values())))
+        if o["rc"] != ref["rc"]:
+            bad.append("exit code %s, the covering root alone gives %s" % (o["rc"], ref["rc"]))
+        # ---- model: which roots are walked
+        line = "roots\t" + ";".join(root_key(r) for r in roots)
+        mo = ask(model, [line])[0]
+        acc.model_lines.append((line, mo))
+        kept_keys = [] if mo.split("\t")[0] == "-" else mo.split("\t")[0].split(";")
+        if mo.split("\t")[1] != "1":
+            raise CheckBroken("roots_overlap is false on the overlapping roots %s" % roots)
+        walked = list(roots) if not ROOTS_STRICT[0] else [next(r for r in roots if root_key(r) == k) for k in kept_keys]
+        exp_list = []
+        for r in walked:
+            sr = single_of(r)
+            exp_list += sr["content_list"] if sr else []
+        if o["content_list"] != exp_list:
+            acc.mism.append(("roots %s: the model walks %s, whose file results are %s...; check lists %s..." % (
+                " ".join(roots), walked, exp_list[:3], o["content_list"][:3]), c2))
+        elif not bad:
+            acc.validated += 1
+        if not bad:
+            continue
+        acc.nontrivial.add(json.dumps(c2, sort_keys=True))
+        msg = "roots %s: %s" % (" ".join(roots), "; ".join(bad))
+        # classifier of the old defect: the run printed exactly the concatenation of what each root gives on its own
+        a, b = single_of(roots[0]), single_of(roots[1])
+        concatenated = (a is not None and b is not None and o["files"] == a["files"] + b["files"] and o["content"] == a["content"] + b["content"]
+                        and o["totals"] == [x + y for x, y in zip(a["totals"], b["totals"])] and o["rc"] == max(a["rc"], b["rc"]))
+        if not ROOTS_STRICT[0] and concatenated:
+            acc.known.append((ROOTS_CLASS, msg, c2))
+        else:
+            acc.fails.append((msg, c2))
+
+
 KIND_PLAN = ["bigstructure", "none", "plain", "ties", "hostile", "structure", "baseline", "customlang", "mixed"]
 
 
-def cli_phase(ctx, sgcli, model, builtin, gen, n_projects, n_full):
+def cli_phase(ctx, sgcli, model, builtin, gen, n_projects, n_full, n_roots=5):
     acc = Acc()
     projects = [project_from_replay(c["project"]) for c in load_corpus("cli")]
     k = 0
@@ -795,8 +999,11 @@ def cli_phase(ctx, sgcli, model, builtin, gen, n_projects, n_full):
         k += 1
     full = [i for i, P in enumerate(projects) if ({"ties", "customlang", "bigstructure"} & P.tags)]
     full = set(sorted(full, key=lambda i: (0 if "bigstructure" in projects[i].tags else 1, i))[:n_full])
+    # overlapping scan roots: the corpus projects tagged for it, then generated projects with a sub-directory (structure rules first)
+    cand = [i for i, P in enumerate(projects) if any(b"/" in k for k in P.files)]
+    roots = set(sorted(cand, key=lambda i: (0 if "roots" in projects[i].tags else 1 if "structure" in projects[i].tags else 2, i))[:n_roots])
     with cf.ThreadPoolExecutor(max_workers=6) as ex:
-        futs = [ex.submit(run_project, sgcli, model, builtin, gen, P, i in full) for i, P in enumerate(projects)]
+        futs = [ex.submit(run_project, sgcli, model, builtin, gen, P, i in full, None, i in roots) for i, P in enumerate(projects)]
         for f in futs:
             acc.merge(f.result())
     return acc, projects
@@ -820,16 +1027,17 @@ def load_corpus(kind):
 
 def xcheck(ctx, acc, k):
     """Evaluate a sub-sample of the model queries inside Coq (vm_compute) and compare with the extracted driver."""
-    pool = [(l, o) for l, o in acc.model_lines if l.split("\t")[0] in ("summary", "esc", "uri", "bylang", "totals") and len(l) < 1500]
+    pool = [(l, o) for l, o in acc.model_lines if l.split("\t")[0] in ("summary", "agg", "esc", "uri", "bylang", "totals", "roots") and len(l) < 1500]
     ctx.rng.shuffle(pool)
     pick = pool[:k]
     exprs, expect = [], []
 
     def res(item):
-        st, p, t, c, m, b = item.split("|")
+        st, p, t, c, m, b = item.split("|")[:6]
         return ("{| r_path := %s; r_status := %s; r_stats := {| l_total := %s; l_code := %s; l_comment := %s; l_blank := %s |}; "
-                "r_raw := None; r_limit := 0; r_reason := None; r_sugg := None; r_structure := false |}" % (
-                    coq_str(dec(p)), ["Passed", "Warning", "Failed", "Grandfathered"][int(st)], t, c, m, b))
+                "r_raw := None; r_limit := 0; r_reason := None; r_sugg := None; r_structure := %s |}" % (
+                    coq_str(dec(p)), ["Passed", "Warning", "Failed", "Grandfathered"][int(st)], t, c, m, b,
+                    "true" if item.split("|")[6:] == ["1"] else "false"))
 
     def fil(item):
         p, l, t, c, m, b = item.split("|")
@@ -842,6 +1050,20 @@ def xcheck(ctx, acc, k):
             rs = "[" + "; ".join(res(i) for i in f[1].split(";")) + "]" if f[1] != "-" else "[]"
             exprs.append("let s := summarize %s in [s_total s; s_passed s; s_warnings s; s_failed s; s_grandfathered s]" % rs)
             expect.append([int(x) for x in o.split(" | ")[0].split()])
+        elif f[0] == "agg":
+            rs = "[" + "; ".join(res(i) for i in f[2].split(";")) + "]" if f[2] != "-" else "[]"
+            exprs.append("let a := %s %s in [l_total a; l_code a; l_comment a; l_blank a]" % ("html_aggregate_v0" if f[1] == "0" else "html_aggregate", rs))
+            expect.append([int(x) for x in o.split()])
+        elif f[0] == "roots":
+            def pth(x):
+                return "[]" if x == "." else "[" + ";".join(coq_str(dec(c)) for c in x.split("/")) + "]"
+            exprs.append("flat_map (fun p => 1114113 :: flat_map (fun c => 1114112 :: c) p) (drop_covered [%s])" % ";".join(pth(x) for x in f[1].split(";")))
+            exp = []
+            for x in ([] if o.split("\t")[0] == "-" else o.split("\t")[0].split(";")):
+                exp.append(1114113)
+                for c in ([] if x == "." else x.split("/")):
+                    exp += [1114112] + [ord(ch) for ch in dec(c)]
+            expect.append(exp)
         elif f[0] == "uri":
             exprs.append("uri_encode [%s]" % ";".join(x for x in f[1].split(",") if x != "-"))
             expect.append([ord(c) for c in dec(o.split("\t")[0])])
@@ -864,7 +1086,7 @@ def xcheck(ctx, acc, k):
     if not exprs:
         ctx.cov["extraction_crosscheck"] = {"cases": 0, "disagreements": 0}
         return
-    got = coq_eval("From Coq Require Import NArith List.\nFrom SG Require Import Report.Summary Report.Stats Report.Escape Report.Uri.", exprs)
+    got = coq_eval("From Coq Require Import NArith List.\nFrom SG Require Import Report.Summary Report.Stats Report.Escape Report.Uri Report.Roots.", exprs)
     bad = 0
     for g, e in zip(got, expect):
         if [int(x) for x in re.findall(r"\d+", g)] != e:
@@ -878,11 +1100,12 @@ def run(ctx):
     sgcli, impl, model, builtin = prepare(ctx)
     proofs_ok = proofs_step(ctx, PROP_FILES)
     gen = model_generation(ctx)
+    set_generations(ctx)
     quick = ctx.tier == "quick"
     t0 = time.time()
     lib = lib_phase(ctx, impl, model, builtin, gen, *((400, 150, 100) if quick else (10000, 3000, 1500)))
     t1 = time.time()
-    cli, projects = cli_phase(ctx, sgcli, model, builtin, gen, *((24, 10) if quick else (320, 100)))
+    cli, projects = cli_phase(ctx, sgcli, model, builtin, gen, *((24, 10, 5) if quick else (320, 100, 80)))
     t2 = time.time()
     acc = Acc()
     acc.merge(lib)
@@ -902,7 +1125,8 @@ def run(ctx):
         "projects of 8 kinds (none, plain, ties in every sort key, hostile names incl. quotes/angle brackets/ampersands/newlines/percent/non-UTF-8 "
         "bytes, structure rules, baseline with grandfathered and new failures, several custom languages sharing an extension, mixed); each: check in "
         "5 formats + -v, side-cars, -q/-vv/--suggest/--color always, stats files|summary|breakdown|report in every format, 3-15 repeated runs of 5 "
-        "commands under RAYON_NUM_THREADS 1/4/16. evaluations = library cases answered + projects; non-trivial = distinct case with a non-passed "
+        "commands under RAYON_NUM_THREADS 1/4/16; the html line-total cards against stats summary / --report-json; for 5 (thorough 80) projects "
+        "with a sub-directory: runs over overlapping scan roots (. d | d . | d d | d d/file | d/file d | file file | ./d d/) against the single covering root. evaluations = library cases answered + projects; non-trivial = distinct case with a non-passed "
         "result, a tie in a breakdown sort key, or an extension claimed by two custom languages; traces_validated = comparisons model-vs-tool that agreed")
     ctx.cov["input_distribution"] = dict(acc.hist)
     ctx.cov["model_vs_impl_mismatches"] = len(acc.mism)
@@ -947,6 +1171,7 @@ def replay(ctx, path):
     j = json.load(open(path))
     sgcli, impl, model, builtin = prepare(ctx)
     gen = model_generation(ctx)
+    set_generations(ctx)
     if "lib_case" in j:
         out, rc, err = run_lines(impl, [json.dumps(j["lib_case"])])
         acc = Acc()
@@ -959,7 +1184,7 @@ def replay(ctx, path):
         else:
             lib_reg(acc, model, builtin, j["lib_case"], o, case, gen)
     elif "project" in j:
-        acc = run_project(sgcli, model, builtin, gen, project_from_replay(j["project"]), True)
+        acc = run_project(sgcli, model, builtin, gen, project_from_replay(j["project"]), True, None, True)
     else:
         print("nothing to replay in", path)
         return 0
